@@ -371,6 +371,8 @@ def run_session(rng, res, n_episodes, tier):
         state["before_commit"] = dict(jd.reg)
         if shape == "in":
             yield from ses.transfer_in(s8, p_inter=p_inter)
+        elif shape == "out":
+            yield from ses.transfer_out(s8, p_inter=p_inter)
         else:
             yield from ses.transfer_nodata(s8, p_inter=p_inter)
 
